@@ -253,27 +253,43 @@ def build_harness(work, binary="hv", tags="verif", extra_overlay=None):
     return (out_bin if rc == 0 else None), out
 
 
-def run_harness(binary, family, cases, timeout=1800, args=()):
-    """feed cases (python objects) as JSON lines; get one observation each"""
-    inp = "\n".join(json.dumps(c, separators=(",", ":")) for c in cases) + "\n"
-    p = subprocess.run([binary, family, *args], input=inp, stdout=subprocess.PIPE,
-                       stderr=subprocess.PIPE, text=True, timeout=timeout)
-    if p.returncode != 0:
-        raise RuntimeError("harness %s failed (rc=%d): %s" % (family, p.returncode, p.stderr[-2000:]))
-    obs = [json.loads(l) for l in p.stdout.splitlines() if l.strip()]
-    if len(obs) != len(cases):
-        raise RuntimeError("harness %s: %d observations for %d cases; stderr: %s"
-                           % (family, len(obs), len(cases), p.stderr[-1000:]))
-    return obs
+def run_harness(binary, family, cases, timeout=1800, args=(), crash_obs=None):
+    """feed cases (python objects) as JSON lines; get one observation each.
+    If the harness process dies (a panic escaping the code under test) and
+    crash_obs is given, the case being run gets that observation and the
+    remaining cases are run in a fresh process."""
+    res = []
+    rest = list(cases)
+    while rest:
+        inp = "\n".join(json.dumps(c, separators=(",", ":")) for c in rest) + "\n"
+        p = subprocess.run([binary, family, *args], input=inp, stdout=subprocess.PIPE,
+                           stderr=subprocess.PIPE, text=True, timeout=timeout)
+        obs = []
+        for l in p.stdout.splitlines():
+            if l.strip():
+                try:
+                    obs.append(json.loads(l))
+                except ValueError:
+                    break
+        if p.returncode == 0 and len(obs) == len(rest):
+            res += obs
+            break
+        if crash_obs is None or len(obs) >= len(rest):
+            raise RuntimeError("harness %s failed (rc=%d, %d observations for %d cases): %s"
+                               % (family, p.returncode, len(obs), len(rest), p.stderr[-2000:]))
+        res += obs
+        res.append(dict(crash_obs, stderr_tail=p.stderr[-600:]))
+        rest = rest[len(obs) + 1:]
+    return res
 
 
-def run_harness_parallel(binary, family, cases, nproc=None, timeout=1800, args=()):
+def run_harness_parallel(binary, family, cases, nproc=None, timeout=1800, args=(), crash_obs=None):
     nproc = min(nproc or NCPU, len(cases))
     if nproc < 2:
-        return run_harness(binary, family, cases, timeout, args)
+        return run_harness(binary, family, cases, timeout, args, crash_obs)
     chunks = [cases[i::nproc] for i in range(nproc)]
     with ThreadPoolExecutor(max_workers=nproc) as ex:
-        outs = list(ex.map(lambda c: run_harness(binary, family, c, timeout, args), chunks))
+        outs = list(ex.map(lambda c: run_harness(binary, family, c, timeout, args, crash_obs), chunks))
     res = [None] * len(cases)
     for k, o in enumerate(outs):
         res[k::nproc] = o
